@@ -462,6 +462,13 @@ findTypeLoop:
 	return buf
 }
 
+// checkOffset16 panics if offs cannot be stored in a 16-bit offset field.
+func checkOffset16(offs int) {
+	if offs > 0xFFFF {
+		panic("subtable too large: 16-bit offset overflow")
+	}
+}
+
 type layoutChunk struct {
 	code chunkCode
 	size uint32
